@@ -61,3 +61,8 @@ package tex
 //@   ensures #quoted result == nil ==> quoted(b)
 //@   ensures #exact result == nil && len(b) > 2 ==> len(deref(i)) == splitcount(inner(b), "/") && forall j int :: { splitpart(inner(b), "/", j) } 0 <= j && j < len(deref(i)) ==> isint(splitpart(inner(b), "/", j)) && 0 <= ival(splitpart(inner(b), "/", j)) && ival(splitpart(inner(b), "/", j)) <= 255 && deref(i)[j] == uint8(ival(splitpart(inner(b), "/", j)))
 //@   modifies deref(i), region($alloc)
+//
+//@ func Duration.Duration
+//@   property C19 C20
+//@   ensures result == time.Duration(i)
+//@   modifies
